@@ -276,6 +276,15 @@ def run_api(ctx, case):
                          [[n, str(s), str(en)] for (n, s, en) in want_q],
                          'queries sent to the sensor store differ (decision / window / repeated query)')
             return nontrivial
+        # the documented window, stated here independently of the source-derived constants: ten minutes (600 s) plus a
+        # dump period before the first dump, a minute (60 s) plus a dump period after the last one
+        doc_q = [(n, tval(e, c['ts'][0]) - Fraction(case['dp'], 4) - 600, tval(e, c['ts'][-1]) + Fraction(case['dp'], 4) + 60)
+                 for (n, _, _) in got_q]
+        if got_q != doc_q:
+            ctx.disagree(sig(None, 'store', 'query_window_vs_documented'), case, [[n, str(s), str(en)] for (n, s, en) in got_q],
+                         [[n, str(s), str(en)] for (n, s, en) in doc_q],
+                         'query window differs from [first dump - dump period - 600 s, last dump + dump period + 60 s]')
+            return nontrivial
         bad_url = [u for (u, _, _, _) in fake.log if u != 'http://%s/katstore/api/query' % case['store']]
         if bad_url:
             ctx.disagree(sig(None, 'store', 'url'), case, bad_url, None, 'unexpected store URL')
